@@ -44,7 +44,7 @@ def variations(P):
     nw = P["net_nuclear_winter"]
     for sc in ("seaweed", "methane_scp", "cellulosic_sugar", "relocated_crops", "greenhouse", "industrial_foods"):
         V["nw_" + sc] = dict(nw, scenario=sc)
-    for sh in ("immediate", "one_month_delayed_shutoff", "short_delayed_shutoff"):
+    for sh in ("immediate", "one_month_delayed_shutoff", "short_delayed_shutoff", "continued"):
         V["nw_shutoff_" + sh] = dict(nw, shutoff=sh)
     V["nw_no_stored_food"] = dict(nw, stored_food="zero")
     V["nw_dont_eat_culled"] = dict(nw, cull="dont_eat_culled")
@@ -123,7 +123,7 @@ def jobs(tier, seed=0):
     # every documented shut-off schedule appears at least once whatever the seed
     # (PAK under the short schedule: the one cell found where the re-timing of the feed round's meat really moves meat between months)
     for cc, name in (("ARG", "nw_shutoff_one_month_delayed_shutoff"), ("EST", "nw_shutoff_short_delayed_shutoff"), ("ZAF", "nw_shutoff_immediate"),
-                     ("PAK", "nw_shutoff_short_delayed_shutoff")):
+                     ("PAK", "nw_shutoff_short_delayed_shutoff"), ("JPN", "nw_shutoff_continued"), ("ARG", "nw_shutoff_continued")):
         res.append(dict(cc=cc, preset=name, options=copy.deepcopy(V[name])))
     # an explicit threshold together with a shut-off schedule that carries its own default threshold
     res.append(dict(cc="ECU", preset="ms_worst_T60", options=dict(copy.deepcopy(P["ms_worst"]), MINIMUM_PERCENT_FED_BEFORE_NONHUMAN_CONSUMPTION_ALLOWED=60)))
